@@ -180,7 +180,7 @@ func pubWalk(t *Term, inh string, ro bool, pub map[int]bool) {
 				switch op.O {
 				case "SafeString", "SafeBytes":
 					mark(tokIDs(op.B), own != "unsafe")
-				case "UnsafeString", "UnsafeBytes", "Write":
+				case "UnsafeString", "UnsafeBytes", "Write", "WriteString":
 					mark(tokIDs(op.B), own == "safe")
 				}
 				for _, x := range op.Ts { // Print/Printf operands, panic payloads: printed under the same declaration
